@@ -2,6 +2,8 @@ import Okane.Spec.Print
 /-!
 # Helper lemmas for the C19 theorems (layout arithmetic of the printer model)
 -/
+set_option linter.unusedSimpArgs false
+
 namespace Okane.Print
 open Okane
 
